@@ -747,8 +747,13 @@ def e9(e: Engine, rep: Report):
            'BytesFeedParser')
     n = 0
     for c in ast.walk(m.tree):
-        if not (isinstance(c, ast.Call) and
-                ast.unparse(c.func).rpartition('.')[2] in CLS):
+        if not isinstance(c, ast.Call):
+            continue
+        fn = ast.unparse(c.func).rpartition('.')[2]
+        if fn == 'partial' and c.args and \
+                ast.unparse(c.args[0]).rpartition('.')[2] in CLS:
+            fn = ast.unparse(c.args[0]).rpartition('.')[2]
+        if fn not in CLS:
             continue
         pol = [k.value for k in c.keywords if k.arg == 'policy']
         if not pol:
